@@ -498,7 +498,7 @@ func (x *Exec) builtin(st *State, fr *Frame, b *ssa.Builtin, cc *ssa.CallCommon,
 		switch under(t).(type) {
 		case *types.Slice:
 			l := slLen(a)
-			st.assume(Ge(l, TInt(0)))
+			st.assume(And(Ge(l, TInt(0)), Le(l, Term{"9223372036854775807", SI})))
 			st.assume(Imp(Eq(a, TInt(0)), Eq(l, TInt(0))))
 			return l
 		case *types.Map:
@@ -564,7 +564,7 @@ func (x *Exec) appendOp(st *State, cc *ssa.CallCommon, args []Val) Val {
 		x.counter++
 		i := Term{fmt.Sprintf("q.i!%d", x.counter), SI}
 		st.assume(Forall([]Term{i}, And(
-			Imp(And(Le(TInt(0), i), Lt(i, n)), Eq(Sel(na, i), Sel(Sel(c, slArr(s)), Add(slOff(s), i)))),
+			Imp(And(Le(TInt(0), i), Lt(i, n)), Eq(Sel(na, i), Sel(Sel(c, slArr(s)), Add(slOff(s), i)))), // na is indexed from 0: the result slice has offset 0
 			Imp(And(Le(n, i), Lt(i, Add(n, m))), Eq(Sel(na, i), Sel(Sel(c, slArr(e)), Add(slOff(e), Sub(i, n))))))))
 		st.setComp(name, Sto(c, arr, na))
 	}
